@@ -1,5 +1,6 @@
 (* Runner for C20: tax summaries and payments.
-   operand := ( doc <doc> ) | ( tt <cats> <sum> <precise> )
+   operand := ( doc <doc> ) | ( tt <cats> <sum> <precise> ) | ( ctt rule c <cats> <sum> <precise> )
+              (ctt: the loaded summary after Total.Calculate(currency with c decimals, rule): carries precise figures)
    cats := ( ( x<code> retained rates amount surcharge? precise ) ... )
    rate := ( x<key> x<country> ext pct? sur? base amount suramount )
    ops: negate A | merge A B ... (left fold) | calc rule c A | pay <payment>
@@ -29,13 +30,15 @@ Definition operand (v : V) : option tax_total :=
       | _ => None
       end
     else if is_op o "tt" then Some (d_tt rest)
+    else if is_op o "ctt" then
+      Some (tt_calculate (vbool (nthv 0 rest)) (vnat (nthv 1 rest)) (d_tt (skipn 2 rest)))
     else None
   | [] => None
   end.
 
 Definition e_tt (t : tax_total) : list V :=
-  [VS (bs "ok"); VL (map e_ct (tt_cats t)); e_amt (tt_sum t); e_amt (precise_or (tt_precise t) (tt_sum t));
-   VL (map (fun c => e_amt (precise_or (ct_precise c) (ct_amount c))) (tt_cats t))].
+  [VS (bs "ok"); VL (map e_ct (tt_cats t)); e_amt (tt_sum t); e_amt (tt_PreciseSum t);
+   VL (map (fun c => e_amt (ct_PreciseAmount c)) (tt_cats t))].
 
 Fixpoint operands (vs : list V) : option (list tax_total) :=
   match vs with
